@@ -43,7 +43,7 @@ def _run_chunk(so, jobs, timeout, kind, stall=None, env_extra=None):
         t0 = time.time()
         with open(outp, "w") as fo, open(errp, "w") as fe:
             p = subprocess.Popen([sys.executable, "-W", "ignore", os.path.join(HERE, "life_child.py"), spec], stdout=fo, stderr=fe,
-                                 env=child_env(kind, env_extra))
+                                 env=dict(child_env(kind, env_extra), TMPDIR=d))     # the child's temporary files die with this directory
             status = None
             last_size, last_change = -1, time.time()
             started = False
